@@ -23,12 +23,13 @@ git checkout -q -- .
 echo "demo clean: $clean | demo mutated: $mut | pinned pkgs ok: $suite/7"
 cp $MD/patch.diff $OUT/patch.diff; cp $MD/demo_test.go $OUT/demo_test.go; cp $MD/notes.txt $OUT/notes.txt 2>/dev/null
 # run the check against /repo with the patch applied
-cd /repo && git apply $OUT/patch.diff || { echo "PATCH DOES NOT APPLY TO /repo"; exit 3; }
+R=${SEED_REPO:-/repo}   # SEED_REPO=<worktree>: check a scratch tree instead of /repo (lets several seeds run in parallel)
+cd $R && git apply $OUT/patch.diff || { echo "PATCH DOES NOT APPLY TO $R"; exit 3; }
 t0=$(date +%s)
-res=$(cd /verif && VERIF_EVIDENCE_DIR=/tmp/verif-seed-evidence VERIF_NO_TV=1 timeout 1500 /verif/bin/vcheck run $P "$@" 2>&1 | grep -a "VIOLATION\|^C[0-9]* tier\|INCONCLUSIVE" | head -6)
+res=$(cd /verif && VERIF_REPO=$R VERIF_EVIDENCE_DIR=/tmp/verif-seed-evidence-$P VERIF_NO_TV=1 timeout 1500 /verif/bin/vcheck run $P "$@" 2>&1 | grep -a "VIOLATION\|^C[0-9]* tier\|INCONCLUSIVE" | head -6)
 rc=$?
 t1=$(date +%s)
-git -C /repo checkout -q -- .
+git -C $R checkout -q -- .
 echo "$res"
 det=no; echo "$res" | grep -q "^VIOLATION" && det=yes
 python3 - <<PY
